@@ -211,7 +211,7 @@ static void runVector(const J& c) {
             else if (o == "assignRange") { VecT t(mm()); fill(t, src); v.assign(t.begin(), t.end()); }
             else if (o == "copy") { VecT t(v, mm()); other = seqJson(vecItems(t)); }
             else if (o == "at") { try { res = num(v.at(i).v); } catch (const std::out_of_range&) { res = "-1"; } }
-            else if (o == "cmp") { VecT t(mm()); fill(t, src); res = std::string("[") + (v == t ? "1" : "0") + "," + (v < t ? "1" : "0") + "]"; }
+            else if (o == "cmp") { VecT t(mm()); fill(t, src); res = num(2 * (v == t ? 1 : 0) + (v < t ? 1 : 0)); }
             else { fprintf(stderr, "vector: unknown op %s\n", o.c_str()); exit(2); }
             emit("{\"e\":\"Op\",\"c\":\"vector\",\"op\":" + jstr(o) + argsJson(op) + ",\"res\":" + res + ",\"other\":" + other + "," + vecObs(v) + "}");
         }
